@@ -58,7 +58,7 @@ def alias_cables(d):
 
 ALIAS_KINDS = ['own-permuted', 'own-offset', 'own-subrange', 'own-mixed', 'other', 'shared']
 # default draw: the shapes the reader is known to take as written are drawn more often than the ones it re-bases / resizes
-ALIAS_DRAW = ['own-permuted'] * 3 + ['shared'] * 2 + ['own-mixed'] * 2 + ['other'] * 2 + ['own-subrange', 'own-offset']
+ALIAS_DRAW = ['own-permuted'] * 4 + ['own-mixed'] * 3 + ['other'] * 3 + ['shared', 'own-subrange', 'own-offset']
 
 
 def alias_shapes(ad, r, p=0.5, per_port=0.4, kinds=None):
